@@ -50,10 +50,13 @@ theorem rinv_step (F : RFacts) (s : RState) (i : Nat) (h : RInv F s) : RInv F (r
       simp only
       split <;> (apply frame _ (by simpa [RState.setLoc] using hg) (by simp [RState.setLoc]) (by intro j hj; simp [RState.setLoc, hj]))
     | publish k =>
+      have hno : ¬ (k.c = .bind ∧ F.rebindRaises = true ∧ (s.table k).isSome) := by
+        intro ⟨h1, h2, _⟩; have := hop.2 h1; rw [this] at h2; cases h2
+      simp only [hno, if_false]
       apply frame _ _ (by simp [RState.setLoc]) (by intro j hj; simp [RState.setLoc, RState.setTable, hj])
       intro k' v; simp only [RState.setLoc, RState.setTable]
       split
-      · intro h; cases h; exact hop
+      · intro h; cases h; exact hop.1
       · exact hg k' v
     | complete k =>
       apply frame _ _ (by simp [RState.setLoc]) (by intro j hj; simp [RState.setLoc, RState.setTable, hj])
@@ -99,7 +102,11 @@ theorem solo_step (F : RFacts) (s : RState) (i j : Nat) (h : RInv F s) :
           have := hg k v hv; subst this
           simp [RState.setLoc, soloResponse, hl, soloObs]
         · simp [RState.setLoc, soloResponse, hl, soloObs]
-      | publish k => simp [RState.setLoc, RState.setTable, soloResponse, hl, soloObs]
+      | publish k =>
+        have hno : ¬ (k.c = .bind ∧ F.rebindRaises = true ∧ (s.table k).isSome) := by
+          intro ⟨h1, h2, _⟩; have := hop.2 h1; rw [this] at h2; cases h2
+        simp only [hno, if_false]
+        simp [RState.setLoc, RState.setTable, soloResponse, hl, soloObs]
       | complete k => simp [RState.setLoc, RState.setTable, soloResponse, hl, soloObs]
       | validate => simp [RState.setLoc, soloResponse, hl, soloObs, payloadError]
       | readErr =>
@@ -178,10 +185,13 @@ theorem graph_step (F : RFacts) (hF : ∀ c, F.order c = .afterInit) (s : RState
     cases op with
     | probe k => simp only; split <;> simpa [RState.setLoc] using hg
     | publish k =>
-      intro k' v; simp only [RState.setLoc, RState.setTable]
+      simp only
       split
-      · intro h; cases h; simp [published, hF]
-      · exact hg k' v
+      · simpa [RState.setLoc] using hg
+      · intro k' v; simp only [RState.setLoc, RState.setTable]
+        split
+        · intro h; cases h; simp [published, hF]
+        · exact hg k' v
     | complete k =>
       intro k' v; simp only [RState.setLoc, RState.setTable]
       split
@@ -232,7 +242,9 @@ theorem obsfull_step (F : RFacts) (s : RState) (i j : Nat)
           rcases hm with hm | hm
           · exact ho k' v' hm
           · exact hm.2
-      | publish k => intro k' v' hm; simp [RState.setLoc, RState.setTable] at hm; exact ho k' v' hm
+      | publish k =>
+        simp only
+        split <;> (intro k' v' hm; simp [RState.setLoc, RState.setTable] at hm; exact ho k' v' hm)
       | complete k => intro k' v' hm; simp [RState.setLoc, RState.setTable] at hm; exact ho k' v' hm
       | validate => intro k' v' hm; simp [RState.setLoc] at hm; exact ho k' v' hm
       | readErr =>
